@@ -324,7 +324,9 @@ def do_capitalize(s: str) -> str:
     """Capitalize a value. The first character will be uppercase, all others
     lowercase.
     """
-    return soft_str(s).capitalize()
+    s = soft_str(s)
+    # str.capitalize() would titlecase the first character
+    return s[:1].upper() + s[1:].lower()
 
 
 _word_beginning_split_re = re.compile(r"([-\s({\[<]+)")
